@@ -7,7 +7,16 @@ EXTENDS BigNat, TraceLib, Json
 Trace == ndJsonDeserialize("trace.ndjson")
 N == Len(Trace)
 Leaves(size) == (size + 63) \div 64
-Line(l) == LET t == Trace[l] n == Leaves(t.size) IN
+\* file sizes up to 2^64-1 (a contract may commit to any size): size, index and the quotient seed \div leaves as limbs;
+\* the number of leaves is ceil(size / 64) in exact arithmetic, whatever the machine word does
+BigLine(l) == LET t == Trace[l]
+                  n == DivSmall(Add(t.bsize, <<63>>), 64)       \* leaves
+              IN
+  /\ Check(IsNat(t.seed) /\ Lt(t.seed, Pow2(256)) /\ IsNat(t.bsize) /\ Lt(t.bsize, Pow2(64)) /\ IsNat(t.bidx) /\ IsNat(t.q), l, "not numbers")
+  /\ Check(n # <<>> \/ t.bidx = <<>>, l, "empty file must give index 0")
+  /\ Check(n = <<>> \/ (Lt(t.bidx, n) /\ Add(Mul(t.q, n), t.bidx) = t.seed), l, "challenge index is not seed mod leaves (large file)")
+Line(l) == IF "bsize" \in DOMAIN Trace[l] THEN BigLine(l) ELSE
+  LET t == Trace[l] n == Leaves(t.size) IN
   /\ Check(IsNat(t.seed) /\ Lt(t.seed, Pow2(256)), l, "seed is not a 256-bit number")
   /\ Check(n > 0 \/ t.idx = 0, l, "empty file must give index 0")
   /\ Check(n = 0 \/ (t.idx < n /\ ModSmall(t.seed, n) = t.idx), l, "challenge index is not seed mod leaves")
